@@ -11,6 +11,7 @@ import FP.Lemmas.SyntaxFull
 import FP.Lemmas.Lexer
 import FP.Model.Eval
 import FP.Gen.Visitor
+import FP.Gen.EvalShape
 namespace FP.Props.C11
 open FP FP.Model.Syntax FP.Gen.Grammar FP.Lemmas.Syntax FP.Lemmas.Lexer
 
@@ -338,6 +339,47 @@ theorem right_operand_compiled_with_cleared_flag (t : List FP.Gen.FuncTable.Entr
             · simp at h
 
 end VisitorShape
+
+/-! ### the shape of the `Evaluate` methods, regenerated from expr/expressions.go -/
+
+section EvalShape
+open FP.Model FP.Model.Eval
+
+/-- which sub-expression each `Evaluate` method evaluates, with which context and on which collection, as
+    `FP.Model.Eval.eval` is written: both operands of every binary expression on the method's own input (each
+    with a clone of the context), the operand of `is` / `as` / negation and the index of an indexer on the
+    input, a sequence step on the output of the step before; the remaining methods evaluate no
+    sub-expression themselves (a function's arguments are handed to the implementation unevaluated). -/
+def expectedEvalShape : List (String × List (String × String × String)) :=
+  [("ArithmeticExpression", [("e.Left", "ctx.Clone()", "input"), ("e.Right", "ctx.Clone()", "input")]),
+   ("AsExpression", [("e.Expr", "ctx", "input")]),
+   ("BooleanExpression", [("e.Left", "ctx.Clone()", "input"), ("e.Right", "ctx.Clone()", "input")]),
+   ("ComparisonExpression", [("e.Left", "ctx.Clone()", "input"), ("e.Right", "ctx.Clone()", "input")]),
+   ("ConcatExpression", [("e.Left", "ctx.Clone()", "input"), ("e.Right", "ctx.Clone()", "input")]),
+   ("EqualityExpression", [("e.Left", "ctx.Clone()", "input"), ("e.Right", "ctx.Clone()", "input")]),
+   ("ExpressionSequence", [("expr", "ctx", "output")]),
+   ("ExternalConstantExpression", []), ("FieldExpression", []), ("FunctionExpression", []), ("IdentityExpression", []),
+   ("IndexExpression", [("e.Index", "ctx", "input")]), ("IsExpression", [("e.Expr", "ctx", "input")]),
+   ("LiteralExpression", []), ("NegationExpression", [("e.Expr", "ctx", "input")]), ("TypeExpression", [])]
+
+theorem evaluate_shape_as_modelled : FP.Gen.EvalShape.methods = expectedEvalShape := by decide +kernel
+
+/-- what the shape means in the model: the two operands of a binary expression are evaluated on the same
+    input, left first, and an error of the left operand is the result whatever the right one does; the index
+    of an indexer is evaluated on the collection being indexed; a sequence feeds each step the result of the
+    step before -/
+theorem operands_evaluated_on_the_same_input (env : Env) (op : ArithOp) (l r : E) (input : List Val) :
+    (∀ m, eval env l input = .err m → eval env (.arith op l r) input = .err m) ∧
+    (∀ lv rv, eval env l input = .ok lv → eval env r input = .ok rv → eval env (.arith op l r) input = arithEv op lv rv) ∧
+    (∀ iv, eval env l input = .ok iv → eval env (.index l) input = indexColl iv input) ∧
+    (∀ mid, eval env l input = .ok mid → eval env (.seq l r) input = eval env r mid) := by
+  refine ⟨?_, ?_, ?_, ?_⟩
+  · intro m h; simp [eval, h, Res.bind]
+  · intro lv rv hl hr; simp [eval, hl, hr, Res.bind]
+  · intro iv h; simp [eval, h, Res.bind]
+  · intro mid h; simp [eval, h, Res.bind]
+
+end EvalShape
 
 open FP.Model.Eval in
 /-- non-vacuity and a test of the assembled pipeline on a concrete program (a test, not the claim) -/
